@@ -19,6 +19,9 @@ typedef struct { size_t from; size_t len; _Bool contiguous; } vstr_c8;
 #include "spec/binstream_view.h"
 static inline vstr_c8 vstr_c8_ctor(void) { vstr_c8 s; s.from = 0; s.len = 0; s.contiguous = 1; return s; }
 static inline void vstr_c8_clear(vstr_c8* s) { s->len = 0; s->contiguous = 1; }
+static inline size_t vstr_c8_size___k(const vstr_c8* s) { return s->len; }
+static inline _Bool m_std_isfinite__f32(float x) { return !__CPROVER_isnanf(x) && !__CPROVER_isinff(x); }
+static inline _Bool m_std_isfinite__f64(double x) { return !__CPROVER_isnand(x) && !__CPROVER_isinfd(x); }
 static inline void vstr_c8_reserve__u64(vstr_c8* s, unsigned long n) { (void)s; (void)n; }   /* allocation failure is not modelled (stated) */
 static inline vstr_c8* vstr_c8_op_addassign_vsv_c8__rkvsv_c8(vstr_c8* s, const vsv_c8* v) {
   __CPROVER_assert(v->data == g_view_ptr, "MODEL: the appended view is the block handed out last by the stream reader"); size_t off = g_view_off;
